@@ -69,6 +69,11 @@ func c12Alphabet() []c12Shape {
 		// (like any server-streaming handler) until the harness lets it return, just before the probe
 		{Name: "open-lingering", Env: kit.EnvSpec{Method: sp(kit.FullMethod("l"))}, ValidOpen: true, Lingering: true},
 		{Name: "body-lingering", Env: kit.EnvSpec{Method: sp(kit.FullMethod("l")), Body: body, Wrap: true}, StreamBody: true, Lingering: true},
+		// the same for a server-streaming method (the peer may send one request message and half-close; whatever else
+		// it sends for that id while the handler is busy must not stall the connection)
+		{Name: "open-lingering-ss", Env: kit.EnvSpec{Method: sp(kit.FullMethod("ls"))}, ValidOpen: true, Lingering: true},
+		{Name: "body-lingering-ss", Env: kit.EnvSpec{Method: sp(kit.FullMethod("ls")), Body: body, Wrap: true}, StreamBody: true, Lingering: true},
+		{Name: "trailer-lingering-ss", Env: kit.EnvSpec{Method: sp(kit.FullMethod("ls")), Status: okst, Trailer: true}, Lingering: true},
 	}
 }
 
@@ -178,7 +183,7 @@ func execC12(t *testing.T, c C12Case) (v Verdict) {
 			}
 		})
 		linger := make(chan struct{})
-		svc.Stream("l", true, true, func(s grpcServerStream) error {
+		lingering := func(s grpcServerStream) error {
 			mu.Lock()
 			streamStarts[0]++
 			mu.Unlock()
@@ -188,7 +193,9 @@ func execC12(t *testing.T, c C12Case) (v Verdict) {
 			case <-s.Context().Done():
 			}
 			return nil
-		})
+		}
+		svc.Stream("l", true, true, lingering)
+		svc.Stream("ls", false, true, lingering) // server-streaming: the caller sends one message and half-closes
 		var sopts []goat.ServerOption
 		if c.Stats {
 			sopts = append(sopts, goat.StatsHandler(nopStats{}))
